@@ -446,3 +446,56 @@ def split_traces(records, key="ev", reset="reset"):
     if cur:
         traces.append((start, cur))
     return traces
+
+
+# ----------------------------------------------------------------------------- generic case pipeline
+
+TRACE_CFG = """
+INIT Init
+NEXT Step
+POSTCONDITION Accepted
+CHECK_DEADLOCK FALSE
+"""
+
+
+def load_witnesses(prop):
+    p = os.path.join(ROOT, "findings", f"{prop}_witnesses.ndjson")
+    out = []
+    if os.path.exists(p):
+        for line in open(p):
+            if line.strip():
+                out.append(json.loads(line))
+    return out
+
+
+def dedupe(items):
+    seen, out = set(), []
+    for x in items:
+        k = json.dumps(x, sort_keys=True)
+        if k not in seen:
+            seen.add(k)
+            out.append(x)
+    return out
+
+
+def replay_and_validate(wd, cases, pkg, test, overlay_dirs, trace_module, shared=(), env=None,
+                        go_timeout=900, tlc_timeout=1800, race=False, trace_env=None):
+    """cases -> VF_IN ; go harness -> VF_OUT ; Trace spec validation.  Returns (records, validation)."""
+    inp = os.path.join(wd, "cases.ndjson")
+    with open(inp, "w") as f:
+        for c in cases:
+            f.write(json.dumps(c) + "\n")
+    trace = os.path.join(wd, "trace.ndjson")
+    mapping = harness_overlay(overlay_dirs)
+    if shared:
+        mapping.update(shared_files(wd, shared))
+    e = dict(VF_IN=inp, VF_OUT=trace)
+    if env:
+        e.update(env)
+    rc, out = go_test2(pkg, f"^{test}$", wd, mapping, env=e, timeout=go_timeout, race=race)
+    if rc != 0 or "VF replayed=" not in out:
+        raise Inconclusive(f"harness {test} failed:\n" + out[-3000:])
+    with open(os.path.join(wd, trace_module + ".cfg"), "w") as f:
+        f.write(TRACE_CFG)
+    v = validate_trace(trace_module, trace_module + ".cfg", trace, wd, timeout=tlc_timeout, env=trace_env)
+    return read_ndjson(trace), v, out
